@@ -136,36 +136,48 @@ def cholBwd (n : Nat) (mat : Vector α (n * n)) (y : Vector α n) : Vector α n 
 def cholSolve (n : Nat) (mat : Vector α (n * n)) (vec : Vector α n) : Vector α n :=
   cholBwd n mat (cholFwd n mat vec)
 
+/-- column update of `mju_cholUpdate`: `mat[i*n+k] = (mat[i*n+k] ± s*x[i]) * cinv`, `i = k+1 … n-1` -/
+def cholUpdCol (n k : Nat) (hk : k < n) (m : Vector α (n * n)) (x : Vector α n) (plus : Bool) (s cinv : α) :
+    Vector α (n * n) :=
+  forRange (k + 1) n (fun i _ hi m =>
+    set2 m i k hi hk
+      ((if plus then at2 m i k hi hk + s * x[i] else at2 m i k hi hk - s * x[i]) * cinv)) m
+
+/-- vector update of `mju_cholUpdate`: `x[i] = c*x[i] - s*mat[i*n+k]`, `i = k+1 … n-1` -/
+def cholUpdX (n k : Nat) (hk : k < n) (m : Vector α (n * n)) (x : Vector α n) (c s : α) : Vector α n :=
+  forRange (k + 1) n (fun i _ hi (x : Vector α n) => x.set i (c * x[i] - s * at2 m i k hi hk)) x
+
+/-- one iteration (index `k`) of the loop of `mju_cholUpdate`; state = matrix, vector, rank.  `mjMINVAL = 1e-15`. -/
+def cholUpdStep (n : Nat) (plus : Bool) (k : Nat) (hk : k < n) (st : Vector α (n * n) × Vector α n × Nat) :
+    Vector α (n * n) × Vector α n × Nat :=
+  let m := st.1
+  let x := st.2.1
+  let xk := x[k]
+  if beq xk (lit 0) then st
+  else
+    -- prepare constants
+    let Lkk := at2 m k k hk hk
+    let tmp0 := Lkk * Lkk + (if plus then xk * xk else (-xk) * xk)
+    let small : Bool := decide (tmp0 < ofSci 1 true 15)
+    let tmp := if small then ofSci 1 true 15 else tmp0
+    let rank := if small then st.2.2 - 1 else st.2.2
+    let r := sqrt tmp
+    let c := r / Lkk
+    let cinv := lit 1 / c
+    let s := xk / Lkk
+    -- update diagonal
+    let m := set2 m k k hk hk r
+    -- update mat
+    let m := cholUpdCol n k hk m x plus s cinv
+    -- update x
+    let x := cholUpdX n k hk m x c s
+    (m, x, rank)
+
 /-- `mju_cholUpdate(mat, x, n, flg_plus)`: rank-one update `L*L' ± x*x'`; returns the matrix, the overwritten
-`x` and the rank.  `mjMINVAL = 1e-15`. -/
+`x` and the rank. -/
 def cholUpdate (n : Nat) (mat : Vector α (n * n)) (x : Vector α n) (plus : Bool) :
     Vector α (n * n) × Vector α n × Nat :=
-  Nat.fold n (fun k hk (st : Vector α (n * n) × Vector α n × Nat) =>
-    let m := st.1
-    let x := st.2.1
-    let xk := x[k]
-    if beq xk (lit 0) then st
-    else
-      let Lkk := at2 m k k hk hk
-      let tmp0 := Lkk * Lkk + (if plus then xk * xk else (-xk) * xk)
-      let small : Bool := decide (tmp0 < ofSci 1 true 15)
-      let tmp := if small then ofSci 1 true 15 else tmp0
-      let rank := if small then st.2.2 - 1 else st.2.2
-      let r := sqrt tmp
-      let c := r / Lkk
-      let cinv := lit 1 / c
-      let s := xk / Lkk
-      -- update diagonal
-      let m := set2 m k k hk hk r
-      -- update mat
-      let m := forRange (k + 1) n (fun i _ hi m =>
-        set2 m i k hi hk
-          ((if plus then at2 m i k hi hk + s * x[i] else at2 m i k hi hk - s * x[i]) * cinv)) m
-      -- update x
-      let x := forRange (k + 1) n (fun i _ hi (x : Vector α n) =>
-        x.set i (c * x[i] - s * at2 m i k hi hk)) x
-      (m, x, rank))
-    (mat, x, n)
+  Nat.fold n (fun k hk st => cholUpdStep n plus k hk st) (mat, x, n)
 
 /-! ### band-dense storage (engine_util_solve.c): `(ntotal-ndense)` band rows of width `nband` (left of the
 diagonal, inclusive, right-aligned) followed by `ndense` full rows of length `ntotal`. -/
